@@ -28,20 +28,23 @@ fn run_line(raw: &[u8]) -> String {
         Ok(Ok(out)) => out,
         Ok(Err(PErr::Bad)) => "bad-op".to_string(),
         Ok(Err(PErr::Uncon)) => "unconstructible".to_string(),
-        Err(payload) => {
-            let msg: &str = if let Some(s) = payload.downcast_ref::<&'static str>() {
-                s
-            } else if let Some(s) = payload.downcast_ref::<String>() {
-                s.as_str()
-            } else {
-                ""
-            };
-            if msg.starts_with(BUDGET_PANIC_PREFIX) {
-                "panic budget".to_string()
-            } else {
-                "panic".to_string()
-            }
-        }
+        Err(payload) => panic_line(payload.as_ref()).to_string(),
+    }
+}
+
+/// `panic budget` if the panic message starts with the octet-budget prefix, `panic` otherwise.
+fn panic_line(payload: &(dyn std::any::Any + Send)) -> &'static str {
+    let msg: &str = if let Some(s) = payload.downcast_ref::<&'static str>() {
+        s
+    } else if let Some(s) = payload.downcast_ref::<String>() {
+        s.as_str()
+    } else {
+        ""
+    };
+    if msg.starts_with(BUDGET_PANIC_PREFIX) {
+        "panic budget"
+    } else {
+        "panic"
     }
 }
 
@@ -83,5 +86,39 @@ fn main() {
     } else {
         eprintln!("usage: harness run   (op lines on stdin, one result line per op on stdout)");
         std::process::exit(2);
+    }
+}
+
+#[cfg(test)]
+mod tests {
+    use super::*;
+    use dns_message_parser::verif::verif_reset;
+
+    fn caught(f: impl FnOnce()) -> &'static str {
+        std::panic::set_hook(Box::new(|_| {}));
+        let e = catch_unwind(AssertUnwindSafe(f)).unwrap_err();
+        panic_line(e.as_ref())
+    }
+
+    #[test]
+    fn panic_classification() {
+        assert_eq!(caught(|| panic!("boom")), "panic");
+        assert_eq!(caught(|| panic!("boom {}", 1)), "panic");
+        // the real budget panic of the crate: budget 1 octet, decode 2 octets
+        assert_eq!(
+            caught(|| {
+                verif_reset(Some(1));
+                let _ = dns_message_parser::Flags::decode(bytes::Bytes::from_static(b"\x00\x00"));
+            }),
+            "panic budget"
+        );
+        verif_reset(None);
+    }
+
+    #[test]
+    fn lines() {
+        assert_eq!(run_line(b""), "bad-op");
+        assert_eq!(run_line(b"\xff"), "bad-op");
+        assert_eq!(run_line(b"dec.flags 8580"), "ok F 1 0 1 0 1 1 0 0 0 cost=2");
     }
 }
